@@ -147,6 +147,7 @@ def build(cfg):
             data_location=cfg["loc"],
             order=cfg["order"],
             axes_reversed=cfg["rev"],
+            crs=cfg.get("crs"),
         )
     if c == "uni":
         return fm.UniformGrid(
@@ -157,6 +158,7 @@ def build(cfg):
             order=cfg["order"],
             axes_reversed=cfg["rev"],
             axes_increase=list(cfg["inc"]),
+            crs=cfg.get("crs"),
         )
     if c == "esri":
         return fm.EsriGrid(
@@ -166,6 +168,7 @@ def build(cfg):
             xllcorner=cfg["xll"],
             yllcorner=cfg["yll"],
             order=cfg.get("order", "C"),
+            crs=cfg.get("crs"),
         )
     raise ValueError(c)
 
